@@ -558,3 +558,74 @@ theorem reach_silent {cfg : Cfg} {calls : List (Nat × Call α)} {st : St α} (h
       exact ⟨this.1.trans s1.1, this.2⟩
 
 end Replay
+
+namespace Replay
+open Subj (Action Call upd disposedExn upd_apply)
+variable {α : Type}
+
+/-! ## `enq` changes only at a subscription of that observer and at an accepted emission -/
+
+theorem sadDispose_enq (st : St α) (i : Id) : (sadDispose st i).enq = st.enq := by
+  unfold sadDispose removableDispose soDispose
+  dsimp only
+  repeat' split
+  all_goals rfl
+
+theorem soRun_enq (cfg : Cfg) (st : St α) (i : Id) : (soRun cfg st i).enq = st.enq := by
+  unfold soRun
+  split
+  · rfl
+  · dsimp only
+    have : ∀ (s : St α) n, (adoDeliver cfg s i n).1.enq = s.enq := by
+      intro s n
+      unfold adoDeliver callback
+      dsimp only
+      repeat' split
+      all_goals first | rfl | exact sadDispose_enq _ _
+    split
+    · simp [this]
+    · simp [this]
+
+theorem doTask_enq (cfg : Cfg) (st : St α) (t : Task) (hsub : ∀ who j, t ≠ .act who (.sub j)) :
+    (doTask cfg st t).enq = st.enq := by
+  cases t with
+  | act who a =>
+    cases a with
+    | sub j => exact absurd rfl (hsub who j)
+    | unsub j =>
+      simp only [doTask, doUnsub]
+      split
+      · exact sadDispose_enq _ _
+      · rfl
+    | dispose => rfl
+  | sadDispose i => exact sadDispose_enq _ _
+  | resched i => rfl
+  | handle j => rfl
+
+theorem doSub_enq_other (cfg : Cfg) (st : St α) (who : Option Id) (j k : Id) (hk : k ≠ j) :
+    (doSub cfg st who j).1.enq k = st.enq k := by
+  have p : ∀ (s : St α) n, (soPush s j n).enq k = s.enq k := by
+    intro s n; rw [soPush_enq]; simp [hk]
+  have pl : ∀ (ns : List (Notif α)) (s : St α), (pushList s j ns).enq k = s.enq k := by
+    intro ns
+    induction ns with
+    | nil => intro s; rfl
+    | cons n ns ih => intro s; simp only [pushList]; rw [ih, p]
+  unfold doSub
+  split
+  · rfl
+  · dsimp only
+    split
+    · split
+      · simp [callback, hk]
+      · cases who <;> simp [raiseTo, hk]
+    · unfold subscribeCore
+      dsimp only
+      rw [ensureActive_enq]
+      split
+      · rw [p, pl]
+      · split
+        · rw [p, pl]
+        · rw [pl]
+
+end Replay
